@@ -310,3 +310,31 @@ Definition transcript_sequence (tbl : list (Z * Z)) (strand : Z) (ex : list exon
           end
       end
   end.
+
+(* get_cdna_sequence: the CDS records concatenated in list (genomic) order, ORF start computed
+   (its errors escape) BEFORE the single reverse complement of the whole concatenation; the attached
+   reference location is [cds_start_index, cds_start_index + len) *)
+Definition cds_segments (cs : list cds) : list exon := map (fun c => (c_start c, c_end c)) cs.
+
+Definition cdna_sequence (tbl : list (Z * Z)) (strand : Z) (ex : list exon) (cs : list cds) (chrom : seq)
+  : res (seq * Z) :=
+  match cs with
+  | [] => Err EValue                                  (* 'Transcript model has no cds' *)
+  | _ =>
+      let s := concat_exons chrom (cds_segments cs) in
+      match cds_start_index strand ex cs with
+      | Err e => Err e
+      | Ok st => Ok (if strand =? -1 then revcomp tbl s else s, st)
+      end
+  end.
+
+(* model of the plus-strand arm after proposed_fixes/C11_bookend_plus.patch (`exon.end <= index` continues,
+   the `== index` arm is gone) *)
+Fixpoint g2tx_plus_fixed (ex : list exon) (g index : Z) : res Z :=
+  match ex with
+  | [] => Ok index
+  | (s, e) :: t =>
+      if e <=? g then g2tx_plus_fixed t g (index + (e - s))
+      else if s <=? g then Ok (index + (g - s))
+      else Err EIntron
+  end.
